@@ -21,7 +21,7 @@ META = dict(
     technique=("history monitor against an executable reference model of the save directory; statistics "
                "oracle in extended precision; HDF5 read-back"),
     rule=("family A (in-process, comm=None): histories of 3-10 operations over one base "
-          "{save plain/residual list of n=1..6 Field or MultiField samples with overwrite True/False, load as "
+          "{save plain/residual list of n=1..6 (every fifth list 9..13: two-digit sample indices) Field or MultiField samples with overwrite True/False, load as "
           "either class}; family B: the same with every operation executed on an independently chosen number "
           "(1-4, or none) of simulated MPI tasks, one process per rank; family C: StatCalculator / sample_stat / "
           "average / save_to_hdf5 on generated value sequences (constant, huge offset + tiny spread, complex, "
@@ -53,7 +53,9 @@ def gen_history(rng, length):
         r = rng.integers(0, 10)
         if r < 5 or j == 0:
             kind = ("save_plain", "save_residual")[int(rng.integers(0, 2))]
-            ops.append(dict(kind=kind, n=int(rng.integers(1, 7)), multi=multi,
+            # mostly short lists; every fifth one has two-digit sample indices (9-13 samples)
+            nn = int(rng.integers(1, 7)) if rng.integers(0, 5) else int(rng.integers(9, 14))
+            ops.append(dict(kind=kind, n=nn, multi=multi,
                             overwrite=bool(rng.integers(0, 4) > 0), vseed=int(rng.integers(0, 2 ** 31)),
                             scale=float(10.0 ** rng.integers(-3, 4)),
                             offset=float(rng.choice([0.0, 0.0, 1e6, -3e8]))))
@@ -75,11 +77,11 @@ def gen_mpi_history(rng):
                     scale=1.0, offset=0.0)
     k1 = ("save_plain", "save_residual")[int(rng.integers(0, 2))]
     k2 = k1 if rng.integers(0, 3) else ("save_plain", "save_residual")[int(rng.integers(0, 2))]
-    n1 = int(rng.integers(3, 7))
+    n1 = int(rng.integers(3, 7)) if rng.integers(0, 4) else int(rng.integers(10, 14))
     n2 = int(rng.integers(1, n1))
     ld = lambda k: dict(kind="load_plain" if k == "save_plain" else "load_residual")  # noqa
     ops = [sv(k1, n1, True), sv(k2, n2, True), ld(k2),
-           sv(k2, int(rng.integers(n2 + 1, 8)), False), ld(k2)]
+           sv(k2, int(rng.integers(n2 + 1, max(8, n2 + 3))), False), ld(k2)]
     sizes = [int(rng.integers(0, 5)), int(rng.integers(2, 5)), int(rng.integers(0, 5)),
              int(rng.integers(2, 5)), int(rng.integers(0, 5))]
     return ops, sizes
